@@ -1349,6 +1349,10 @@ class ContactHandler(Messenger, dbus.service.Object):
         Messenger.recv_xfer_data(self, transfer_id, flags, data, ext_items)
 
         if flags & messages.TransferSegment.Flag.START:
+            if transfer_id in self._rx_map:
+                # a received bundle is still waiting under this ID, which
+                # a peer does not use twice; it is not overwritten
+                raise RejectError(messages.RejectMsg.Reason.UNEXPECTED)
             self._rx_setup(transfer_id, None)
 
         elif self._rx_tmp is None or self._rx_tmp.transfer_id != transfer_id:
